@@ -9,6 +9,10 @@ S_NOTE = ("Trusted: Lean kernel; Go channel/select/goroutine semantics as encode
           "harness, hooks, driver parser and verdict script. The model is tied to scheduler/scheduler.go by trace replay of "
           "every explored execution through the model's own executable definitions plus hook-free oracles on the real scheduler.")
 
+D_NOTE = ("Trusted: Lean kernel; the transcription of the templates into Gen.runTask/runPred and of compile.go into Gen.validate; "
+          "go/types, gofmt, build/constraint and text/template as libraries; harness/cmd/progrun and textrun, Driver.lean parsers, verdict script. "
+          "Tie: every generated program / text case of the run is executed on the real tool and compared with the models' executable definitions.")
+
 CLAIMED = {
  # id: (technique, level text, design ref, note)
  "C01": ("Lean 4 proof (invariant induction over the scheduler LTS) + trace-replay correspondence", "Theorems over all DAGs/N/modes/interleavings of the model; correspondence and hook-free start/end-stamp oracle on the real scheduler for every explored scenario.", "3 C01", S_NOTE),
@@ -18,6 +22,16 @@ CLAIMED = {
  "C07": ("Lean 4 proof (fail-fast error accounting) + trace-replay correspondence", "nil/err soundness on the model; error-identity and invocation oracles on the real scheduler.", "3 C07", S_NOTE),
  "C08": ("Lean 4 proof (ContinueOnError accounting) + trace-replay correspondence", "error multiset/no sentinel on the model; multierr decomposition oracle on the real scheduler.", "3 C08", S_NOTE),
  "C09": ("Lean 4 proof (no start after cancel) + trace-replay correspondence", "no started event after cancelled in any model log; structural cancellation oracles and receive-after-cancel trace rule on the real scheduler.", "3 C09", S_NOTE),
+ "C02": ("Lean 4 proof (topological enqueue order, order-independence of the denotation, body semantics) + differential oracle on generated programs", "Enqueue order respects dependencies for every acyclic flow; the denoted values are invariant under listing order and concurrency; every generated program of the run is executed under all/sampled outcome assignments, 64-way concurrently, and compared with the model's reference execution.", "3 C02", D_NOTE),
+ "C10": ("Lean 4 proof (job structure of generated Parallel code + scheduler theorems) + differential oracle on generated programs", "Element jobs are exactly (i, s[i]) resp. (k, m[k]) with own copies, End job depends on exactly its elements (so by C01 runs after all of them, never after a failure); sizes nil,0,1,2,17,300 executed on real generated code.", "3 C10", D_NOTE),
+ "C15": ("Lean 4 proof (prologue is a sorted permutation) + differential oracle (every argument slot wrapped in a logging call)", "Each hoisted expression evaluated once in source order in the model; evaluation order, goroutine and before-first-task observed on real generated code for every slot; err capture is a recorded finding.", "3 C15", D_NOTE),
+ "C20": ("Lean 4 proof (source-map adds only comments) + comment-stripped comparison of base and source-map output; differential execution for modifier mode", "Model-level equality of code tokens; byte/token comparison of both modes for every generated program and the repository's corpus.", "3 C20", D_NOTE),
+ "C04": ("Lean 4 proof (recover structure of task bodies; scheduler error accounting) + differential oracle on generated programs", "No panic escapes a generated body and the job error is the PanicError of the panicking function, for every task shape/scenario/store of the model; every function kind x panic value class executed on real generated code with crash isolation.", "3 C04", D_NOTE),
+ "C11": ("Lean 4 proof (gate and fallback semantics of the task body) + differential oracle on generated programs", "Gate, zero values on false predicate, fallback substitution on error/panic/predicate panic only, for every task of the model; all predicate x task outcome combinations on real generated code.", "3 C11", D_NOTE),
+ "C13": ("Lean 4 proof (import-alias freshness) + differential oracle (go/types on every generated file, directive scan, exit status)", "Partial: alias synthesis proved; parse/type-check/no directive left/no tool panic decided per generated program; nested directives and package-name shadowing are recorded findings.", "3 C13", D_NOTE),
+ "C16": ("Lean 4 proof (constraint inversion, output naming) + bounded-exhaustive differential against writeInvertedCffTag and the cff binary", "eval(rewrite e) sigma = eval e (flip cff sigma) for every expression/assignment; output naming injective and test-preserving; real function compared on all expressions up to the tier's size, AST diff and directory snapshots on generated programs.", "3 C16", D_NOTE),
+ "C17": ("Lean 4 proof (sorting is permutation-invariant) + repeated fresh-process generation compared byte for byte", "Partial: the map-iteration sites that reach the output are sorted, proved order-independent; other sources are searched by repeated runs, -file alone vs package, both modes.", "3 C17", D_NOTE),
+ "C18": ("Lean 4 proof (EmitterStack fan-out law; one-invocation event protocol) + differential oracle with recording emitters", "Stack law for every nesting; exactly one outcome event and one TaskDone per invocation in the model; per-emitter event sequences of real generated code checked for every scenario.", "3 C18", D_NOTE),
  "C19": ("Lean 4 proof (counter invariants) + trace-replay correspondence", "report equalities/bounds in every reachable model state; every emitted report of the real scheduler checked against them and against the model's counters.", "3 C19", S_NOTE),
 }
 NA_REASON = "check not built yet in this session (see DESIGN.md section 3 for the planned model and theorems); no claim is made"
